@@ -20,11 +20,12 @@ CHECKS = {
              "c01_* prove the predicate says what the property says. Tie: the real AllStep/TurnBased/DynamicOrder "
              "managers run over a scripted stub; traces must equal the model's and specC01 is evaluated by the "
              "driver on the implementation's trace. The packaged examples TeamBattleSim, PredatorPreyResourcesSim, "
-             "MazeNavigationSim and TrafficCorridorSimulation are modelled instances (Model/Examples.lean; Ex.ex_lawful, "
-             "Ex.ex_WF, C01_examples: specC01 for every configuration of the class, manager and history), tied by the "
-             "real managers over the real example objects (op mgrx) and by direct calls (op gexample): their glue is no "
-             "longer only monitored; MultiMazeNavigationSim is modelled too and proved NOT lawful "
-             "(multiMaze_not_lawful, open finding C01-E1; C01_MultiMaze_partial = all clauses but the ledger).",
+             "MazeNavigationSim, MultiMazeNavigationSim and TrafficCorridorSimulation are modelled instances "
+             "(Model/Examples.lean; Ex.ex_lawful, Ex.ex_WF, C01_examples: specC01 for every configuration of the class, "
+             "manager and history), tied by the real managers over the real example objects (op mgrx) and by direct calls "
+             "(op gexample, judged incl. the read-and-reset clause): their glue is no longer only monitored. Instantiating "
+             "Lawful found C01-E1 (MultiMazeNavigationSim.get_reward was not read-and-reset; the class was first proved "
+             "NOT lawful), repaired in /repo (fce2c1d): all five classes are lawful now, nothing is partial.",
         design="§5 C01", technique="Lean 4 proof (induction over histories with a manager invariant; instantiated for "
                                    "the scripted stub and for the modelled packaged example simulations) + differential "
                                    "correspondence of the hand-written models with the real managers over the stub and "
@@ -64,8 +65,14 @@ CHECKS = {
              "(examples_step_is_history: their step IS a history of component calls on one tape; "
              "examples_observations_in_space: in every state reachable by their own reset / step every channel of get_obs "
              "lies in the space its observer declared), tied by direct calls on real objects compared entry by entry with "
-             "the model (op gexample): their step / reset / getter glue is no longer only monitored (open findings "
-             "C02-E2, C02-E3: TeamBattleSim / PredatorPreyResourcesSim.step raise for in-space actions).",
+             "the model (op gexample): their step / reset / getter glue is no longer only monitored; "
+             "examples_step_noRaise: a step whose action dict holds points of the declared spaces of learning agents does "
+             "not raise (MazeNavigationSim needs the navigator's item, TrafficCorridorSimulation done components that "
+             "answer for the acting agents; nothing else is assumed). Found by this modelling and repaired in /repo: "
+             "C02-E2 (afc90bd: `if not attacked_agents:` on a numpy array of two or more victims raised ValueError in "
+             "TeamBattleSim / PredatorPreyResourcesSim / ReachTheTargetSim), C02-E3 (c275832: TeamBattleSim raised "
+             "KeyError for a killed entity without reward entry), C09-A1 (c4ff362: AbsolutePositionObserver handed out "
+             "the agent's own position array); those situations are ordinary in-domain cases of the stream now.",
         design="§5 C02", technique="Lean 4 proof by composition (reachability induction of C03 + observer/actor theorems of "
                                    "C09/C11/C12; membership preservation of the four wrapper layers and of stacks from "
                                    "C04/C05/C14/C20) + runtime monitor of real simulations, wrapper stacks and example "
@@ -85,9 +92,9 @@ CHECKS = {
              "listing order; dynamic: nominated minus done), some reported agent can act whenever __all__ is "
              "false, and the turn search never exhausts a rotation (termination). Tie as for C01, every real call "
              "under a watchdog. The packaged examples TeamBattleSim, PredatorPreyResourcesSim, MazeNavigationSim, "
-             "TrafficCorridorSimulation (C07_examples) and MultiMazeNavigationSim (C07_MultiMaze_partial, reward values "
-             "erased) are modelled instances driven by the real managers over the real objects (op mgrx): their glue is "
-             "no longer only monitored.",
+             "MultiMazeNavigationSim and TrafficCorridorSimulation are modelled instances (C07_examples, all five since "
+             "the repair fce2c1d of finding C01-E1) driven by the real managers over the real objects (op mgrx): their "
+             "glue is no longer only monitored.",
         design="§5 C07", technique="Lean 4 proof (turn-search totality and fairness by induction; instantiated for the "
                                    "stub and the modelled packaged examples) + differential correspondence with the real "
                                    "managers (over the stub and over real example objects) under a watchdog"),
@@ -122,7 +129,10 @@ CHECKS = {
              "TrafficCorridorSimulation are modelled instances (examples_step_is_history, examples_reachable_WInv, "
              "examples_simIface_reachable: every world their own reset / step can reach satisfies WInv), tied by direct "
              "calls on real objects against the model (op gexample): their glue is no longer only monitored "
-             "(ReachTheTargetSim stays a monitor judged by WInvWeak).",
+             "(ReachTheTargetSim stays a monitor judged by WInvWeak). Found by this stream and repaired in /repo: C09-A1 "
+             "(c4ff362: overwriting the observation of AbsolutePositionObserver in place moved the agent away from the "
+             "cell that stores it), C02-E2 / C02-E3 (afc90bd, c275832: TeamBattleSim.step raised half-way, after the "
+             "attack had been applied); callers that overwrite returned observations are part of the stream.",
         design="§5 C03", technique="Lean 4 proof (invariant + induction over operation histories, reusing the C12 move, C11 "
                                    "attack and C13 placement theorems and the vitals lemmas) + whole-history differential "
                                    "correspondence with the real state components and actors on one world object, plus "
@@ -250,7 +260,9 @@ CHECKS = {
              "same configuration under the same seed to the same state), examples_fresh_twin / "
              "examples_fresh_twin_reachable (hence, under every manager, the episode after a reset on an object that went "
              "through ANY history equals the episode on a newly built one), tied by used-versus-fresh twins of real "
-             "example objects (layer example, op gexample) and by the example streams of C01 / C02 / C03.",
+             "example objects (layer example, op gexample; since the repairs afc90bd / c275832 / fce2c1d incl. agents "
+             "with several simultaneous attacks, killed entities without reward entry and MultiMazeNavigationSim's "
+             "ledger) and by the example streams of C01 / C02 / C03.",
         design="§5 C08", technique="Lean 4 proof (state equality after reset, lifted to traces) + used-versus-fresh twin "
                                    "differential runs on the real code",
         note=NOTE + " Layers covered in this check: the three managers, the OpenSpiel adapter, GymABS (state-equality "
